@@ -21,12 +21,13 @@ type rfCase struct {
 	Transport      chipsim.Transport
 	Mode           string // "plain" | suite name
 	SelSw          string // "9000" (file present) | "6A82" (absent)
+	Indef          bool   // the top-level object uses the indefinite length form (cannot be sized from the header)
 	Seed           int64
 }
 
 func (k rfCase) String() string {
 	return fmt.Sprintf("h=%d v=%d slack=%d maxLe=%d mode=%s maxRead=%d rejectOver=%d short=%s hdrShort=%d ext=%v sel=%s",
-		k.H, k.V, k.Slack, k.MaxLe, k.Mode, k.Transport.MaxRead, k.Transport.RejectLeOver, k.Transport.ShortReturn, k.Transport.HeaderReadShort, k.Transport.ExtendedLength, k.SelSw) + fmt.Sprintf(" keep=%v", k.Transport.LengthErrorKeepsSession)
+		k.H, k.V, k.Slack, k.MaxLe, k.Mode, k.Transport.MaxRead, k.Transport.RejectLeOver, k.Transport.ShortReturn, k.Transport.HeaderReadShort, k.Transport.ExtendedLength, k.SelSw) + fmt.Sprintf(" keep=%v indef=%v", k.Transport.LengthErrorKeepsSession, k.Indef)
 }
 
 // buildTLV makes a top-level object with exactly h header octets and v value octets.
@@ -85,6 +86,10 @@ const testFid = 0x011C // an EF of the MF (selectable right after power-up)
 func runReadFile(k rfCase) (res rfResult) {
 	rnd := rand.New(rand.NewSource(k.Seed))
 	tlvBytes := buildTLV(k.H, k.V, k.TwoByteTag, rnd)
+	if k.Indef {
+		inner := buildTLV(2, k.V%100, false, rnd)
+		tlvBytes = append(append([]byte{0x77, 0x80}, inner...), 0x00, 0x00)
+	}
 	ef := append(append([]byte{}, tlvBytes...), bytes.Repeat([]byte{0xEE}, k.Slack)...)
 	mf := map[uint16][]byte{}
 	if k.SelSw == "9000" {
@@ -130,7 +135,11 @@ func runReadFile(k rfCase) (res rfResult) {
 		res.detail = fmt.Sprintf("returned %d octets, file object has %d; first difference at %d", len(data), len(tlvBytes), firstDiff(data, tlvBytes))
 	}
 	// ---- events ---------------------------------------------------------------------
-	add := func(v any) { res.lines = append(res.lines, core.JSONLine(v)) }
+	add := func(v any) {
+		if !k.Indef { // ReadFile.tla models definite headers only; the outcome of these cases is judged directly
+			res.lines = append(res.lines, core.JSONLine(v))
+		}
+	}
 	add(map[string]any{"e": "cfg", "h": k.H, "v": k.V, "ef": len(ef), "maxLe": k.MaxLe, "fresh": true})
 	tr := chip.Truth()
 	if k.Mode == "plain" {
@@ -269,6 +278,11 @@ func C13(c *core.Ctx) {
 	for _, mode := range modes {
 		cases = append(cases, rfCase{H: 2, V: 10, MaxLe: 256, Transport: chipsim.Transport{ExtendedLength: true}, Mode: mode, SelSw: "6A82", Seed: c.Rand.Int63()})
 	}
+	for _, mode := range modes {
+		for _, v := range []int{0, 5, 60} {
+			cases = append(cases, rfCase{H: 2, V: v, MaxLe: 256, Transport: chipsim.Transport{ExtendedLength: true}, Mode: mode, SelSw: "9000", Indef: true, Seed: c.Rand.Int63()})
+		}
+	}
 	// seeded random shapes
 	for i := 0; i < core.Pick(c, 300, 6000); i++ {
 		v := c.Rand.Intn(70)
@@ -340,6 +354,9 @@ func C13(c *core.Ctx) {
 		switch r.class {
 		case "WRONG":
 			key := "C13:wrong-bytes"
+			if k.Indef {
+				key = "C13:indefinite-length-header-returns-prefix"
+			}
 			if k.H+k.V > 32768 {
 				key = "C13:offset>=32768-read-under-sfi-semantics"
 			}
